@@ -28,7 +28,7 @@ SALTS = ["S", "", "_x", "é", " "]
 def bounds(tier):
     return dict(wild_slots="every slot of every %s line form with %d fully symbolic Latin-1 characters (no line terminators), one slot at a time" % (
                     "base" if tier == "quick" else "generated", 1 if tier == "quick" else 2),
-                hash_shapes="$1$ + salt of 0..10 arbitrary characters + $ + body; $9$ + 1..%d arbitrary characters, and $9$ strings of 7 characters with two arbitrary ones; netconan salts %r" % (3 if tier == "quick" else 6, SALTS),
+                hash_shapes="$1$ + salt of 0..10 arbitrary characters + $ + body; $9$ + 1..%d arbitrary characters, and $9$ strings of 7 characters with two arbitrary ones; $6$ strings with 1..%d arbitrary characters in the parameter / salt field after '', 'rounds=', 'rounds=5', 'rounds'; netconan salts %r" % (3 if tier == "quick" else 5, 2 if tier == "quick" else 3, SALTS),
                 address_shapes="IPv6-looking tokens 'fe80:' / '::' / '1:' + up to %d arbitrary characters, IPv4-looking tokens with symbolic digits" % (3 if tier == "quick" else 4),
                 enclosing_runs="bracket / quote runs up to 12 characters around a symbolic secret; runs of 300 and 3000 characters probed concretely in a fresh interpreter", words_and_as="sensitive-word and AS-number stages on lines of up to %d arbitrary characters" % (2 if tier == "quick" else 4))
 
@@ -48,7 +48,7 @@ def items(tier, seed):
             out.append(Item("C14", "wild", dict(form=idx, slot=si, n=n), budget_s=400 if tier == "quick" else 2400, obligation="H1-wild-slots"))
     for sl in range(0, 11):
         out.append(Item("C14", "shape", dict(kind="md5", salt=sl, salt_idx=0), budget_s=300, obligation="H2-malformed-hashes"))
-    for k in range(1, (3 if tier == "quick" else 6) + 1):
+    for k in range(1, (3 if tier == "quick" else 5) + 1):   # k = 6 exceeds the item budget (measured: > 40 min per salt)
         for si in range(len(SALTS)):
             out.append(Item("C14", "shape", dict(kind="j9", k=k, salt_idx=si), budget_s=400 if tier == "quick" else 2400, obligation="H2-malformed-hashes"))
     for si in range(len(SALTS)):
